@@ -7,6 +7,7 @@ import sys
 
 ENGINES = {
     "C06": "engines.c06",
+    "C12": "engines.c12",
 }
 
 
